@@ -166,6 +166,9 @@ def check(run: Run) -> None:
           families = {
               "generic": (fun("f", coords), [fun(f"F{k}", coords) for k in range(3)]),
               "constant": (var("c"), [var(f"c{k}") for k in range(3)]),
+              # components that are the SAME expression: code that locates a component by its value (list.index, a dict keyed by the component) mixes up the axes
+              "repeated-component": (fun("f", coords), [fun("G", coords), fun("G", coords), fun("H", coords)]),
+              "repeated-constant": (var("c"), [var("k"), var("k"), var("k")]),
           }
           if run.tier == "thorough":
               # fields whose components depend on a single coordinate each (all three assignments of coordinates to components that
